@@ -491,6 +491,7 @@ func ruleHandshakeTable(c *Ctx) {
 		}
 		return e
 	}
+	joinCall := line // the strings.Join call itself (line is replaced by a stand-in below)
 	if joinFields != nil {
 		// present the six elements as if they were the Sprintf arguments
 		format = "%d|%d|%s|%s|%s|%s"
@@ -622,6 +623,19 @@ func ruleHandshakeTable(c *Ctx) {
 	// the printed value is the line
 	printed := false
 	for _, call := range callsIn(si.print.Ast) {
+		// the Join form printed directly: fmt.Println(strings.Join(fields, "|"))
+		if fieldsVar != nil && lineVar == nil && len(call.Args) >= 1 {
+			var a0 ast.Expr
+			switch nm := p.CalleeName(f, call); {
+			case nm == "fmt.Println" && len(call.Args) == 1:
+				a0 = call.Args[0]
+			case nm == "fmt.Printf" && len(call.Args) == 2:
+				a0 = call.Args[1]
+			}
+			if a0 != nil && ast.Unparen(a0) == ast.Expr(joinCall) {
+				printed = true
+			}
+		}
 		if lineVar == nil {
 			continue
 		}
